@@ -89,7 +89,7 @@ func TestC13Keepalive(t *testing.T) {
 			desc := map[string]any{"kind": "healthy", "setting": si, "latencyMs": ms(lat), "i": idx}
 			noteCurrent(dir, desc)
 			cfg := gbnrun.Config{
-				N: 2, Static: 3 * lat + time.Second, Latency: lat,
+				N: 2, Static: 3*lat + time.Second, Latency: lat,
 				Ping: [2]time.Duration{s.pc, s.ps}, Pong: [2]time.Duration{s.qc, s.qs},
 				Msgs: [2]int{2, 2}, Horizon: 5 * time.Hour, RecvForever: true,
 				CloseScript: func(r *gbnrun.Run) {},
